@@ -12,6 +12,13 @@
 // again and again according to a schedule (full walks, walks cut short, walks started from
 // inside the consumer of another walk of the same value or of a new one), part of it before
 // and part of it after the other methods were called on the scope.
+//
+// Scope values are used the way a caller may use a value: every Scope the case produces is
+// kept in a pool (a, b, a.Union(b) are numbers 0, 1, 2); further operations (ops) take their
+// operands from the pool - the very Go values, with whatever backing arrays they share - and
+// add their results to it; pool values are observed AGAIN in between and all of them at the
+// end, and compared (Equal, Contains) with an independent copy taken when they were produced.
+// The slice handed to NewScope is overwritten as soon as NewScope has returned.
 package main
 
 import (
@@ -101,11 +108,7 @@ func eCanon(a *expr) *expr    { return &expr{K: "canon", X: a} }
 func (e *expr) eval() ociauth.Scope {
 	switch e.K {
 	case "new":
-		rss := make([]ociauth.ResourceScope, len(e.L)) // NewScope sorts its argument in place
-		for i, t := range e.L {
-			rss[i] = t.rs()
-		}
-		return ociauth.NewScope(rss...)
+		return newScope(e.L)
 	case "parse":
 		return ociauth.ParseScope(string(e.Text))
 	case "unl":
@@ -116,6 +119,21 @@ func (e *expr) eval() ociauth.Scope {
 		return e.X.eval().Canonical()
 	}
 	panic("bad expr kind " + e.K)
+}
+
+// newScope calls NewScope on a slice of its own (NewScope sorts its argument in place) and,
+// the slice being the caller's, overwrites every element of it once NewScope has returned:
+// the Scope must not depend on it any longer.
+func newScope(l []triple) ociauth.Scope {
+	rss := make([]ociauth.ResourceScope, len(l), len(l)+len(l)/2)
+	for i, t := range l {
+		rss[i] = t.rs()
+	}
+	s := ociauth.NewScope(rss...)
+	for i := range rss {
+		rss[i] = ociauth.ResourceScope{ResourceType: "repository", Resource: "overwritten-by-caller", Action: "push"}
+	}
+	return s
 }
 
 func (e *expr) kind() string {
@@ -174,6 +192,33 @@ func intern(words ...string) {
 	}
 }
 
+// termTable: within one case, every triple, every list of triples and every long byte
+// string is written once, bound with let, and referred to by name wherever it occurs again
+// (a, b and the union hold the same elements, later observations repeat earlier ones ...).
+// Sharing is by equality of the printed term: lossless, nothing is judged here. Reading the
+// case files is what costs time in Coq, not evaluating them.
+type termTable struct {
+	names map[string]string
+	defs  strings.Builder
+	n     int
+}
+
+var cx *termTable // the case being printed
+
+func bind(prefix, term string) string {
+	if cx == nil {
+		return term
+	}
+	if n, ok := cx.names[term]; ok {
+		return n
+	}
+	name := fmt.Sprintf("%s%d", prefix, cx.n)
+	cx.n++
+	cx.names[term] = name
+	cx.defs.WriteString("let " + name + " := " + term + " in ")
+	return name
+}
+
 func cb(s string) string {
 	if s == "" {
 		return "[]"
@@ -181,6 +226,38 @@ func cb(s string) string {
 	if n, ok := dict[s]; ok {
 		return n
 	}
+	if len(s) <= 3 {
+		return lit(s)
+	}
+	return bind("b", cbLong(s))
+}
+
+// a long text is a concatenation of its space separated fields, each of them written once
+// per case (the String of a, of the union and of every later observation repeat them)
+func cbLong(s string) string {
+	if cx != nil && strings.Count(s, " ") > 0 && strings.Count(s, " ") < len(s)/4 {
+		var toks []string
+		for i, f := range strings.Split(s, " ") {
+			if i > 0 {
+				toks = append(toks, dict[" "])
+			}
+			if f == "" {
+				continue
+			}
+			if n, ok := dict[f]; ok {
+				toks = append(toks, n)
+			} else if len(f) <= 3 {
+				toks = append(toks, lit(f))
+			} else {
+				toks = append(toks, bind("b", cbField(f)))
+			}
+		}
+		return "(j " + hx.List(toks) + ")"
+	}
+	return cbField(s)
+}
+
+func cbField(s string) string {
 	if len(s) <= 8 || !strings.ContainsAny(s, " :,") {
 		return lit(s)
 	}
@@ -209,15 +286,21 @@ func cb(s string) string {
 }
 
 func cTriple(t triple) string {
-	return "RS " + cb(string(t.T)) + " " + cb(string(t.R)) + " " + cb(string(t.A))
+	return bind("t", "(RS "+cb(string(t.T))+" "+cb(string(t.R))+" "+cb(string(t.A))+")")
 }
 
 func cTriples(l []triple) string {
+	if len(l) == 0 {
+		return "[]"
+	}
 	items := make([]string, len(l))
 	for i, t := range l {
 		items[i] = cTriple(t)
 	}
-	return hx.List(items)
+	if len(l) == 1 {
+		return hx.List(items)
+	}
+	return bind("l", hx.List(items))
 }
 
 func (e *expr) coq() string {
@@ -267,7 +350,32 @@ func (w wspec) coq() string {
 	return fmt.Sprintf("(Build_wspec %s %s %s)", hx.Bool(w.Fresh), cLim(w.Lim), nest)
 }
 
+// the fixed schedules of the enumerated inputs are defined once per shard
+const namedScheds = 8
+
+func schedDefs() string {
+	var sb strings.Builder
+	for k := 0; k < namedScheds; k++ {
+		fmt.Fprintf(&sb, "Definition DS%d : list wspec := %s.\n", k, cSchedLit(defaultSched(k)))
+	}
+	return sb.String()
+}
+
 func cSched(l []wspec) string {
+	for k := 0; k < namedScheds; k++ {
+		d := defaultSched(k)
+		same := len(d) == len(l)
+		for i := 0; same && i < len(d); i++ {
+			same = d[i] == l[i]
+		}
+		if same {
+			return fmt.Sprintf("DS%d", k)
+		}
+	}
+	return cSchedLit(l)
+}
+
+func cSchedLit(l []wspec) string {
 	items := make([]string, len(l))
 	for i, w := range l {
 		items[i] = w.coq()
@@ -415,19 +523,153 @@ func (o sobs) coq() string {
 		cWalks(o.Iter, o.Walks))
 }
 
+// pop: one further operation on the pool of Scope values of a case (0 = a, 1 = b,
+// 2 = a.Union(b), 3.. = results of the ops before this one). The result joins the pool.
+// Look: pool values observed again right after this op (besides all of them at the end).
+type pop struct {
+	K    string   `json:"k"` // new | parse | unl | union | canon
+	L    []triple `json:"l,omitempty"`
+	Text bstr     `json:"text,omitempty"`
+	I    int      `json:"i,omitempty"` // receiver
+	J    int      `json:"j,omitempty"` // argument
+	Look []int    `json:"look,omitempty"`
+}
+
+func (o pop) coq() string {
+	switch o.K {
+	case "new":
+		return "(PNew " + cTriples(o.L) + ")"
+	case "parse":
+		return "(PParse " + cb(string(o.Text)) + ")"
+	case "unl":
+		return "PUnl"
+	case "union":
+		return fmt.Sprintf("(PUnion %d%%nat %d%%nat)", o.I, o.J)
+	case "canon":
+		return fmt.Sprintf("(PCanon %d%%nat)", o.I)
+	}
+	panic("bad op kind " + o.K)
+}
+
+func cOps(l []pop) string {
+	items := make([]string, len(l))
+	for i, o := range l {
+		items[i] = o.coq()
+	}
+	return hx.List(items)
+}
+
 type input struct {
-	A      *expr    `json:"a"`
-	B      *expr    `json:"b"`
-	Probes []triple `json:"probes"` // in addition to the 80-triple universe
-	Stop   int      `json:"stop"`
-	Sched  []wspec  `json:"sched"` // absent (corpus files written before it existed): defaultSched(Stop)
+	A       *expr    `json:"a"`
+	B       *expr    `json:"b"`
+	Probes  []triple `json:"probes"` // in addition to the 80-triple universe
+	Stop    int      `json:"stop"`
+	Sched   []wspec  `json:"sched"`             // absent (corpus files written before it existed): defaultSched(Stop)
+	Ops     []pop    `json:"ops,omitempty"`     // further operations on the pool; none: nothing is observed again
+	PProbes []triple `json:"pprobes,omitempty"` // Holds probes of the later observations
+}
+
+// robs: pool value Idx observed again. After: the number of ops that had run by then.
+// Snap: still Equal to / Contains / contained in the copy made when it was produced.
+// ChangedSince (for the reader of a replay file only, not part of the Coq case): what is
+// not as it was when the value was produced.
+type robs struct {
+	Idx          int      `json:"pool_index"`
+	After        int      `json:"after_ops"`
+	Obs          sobs     `json:"obs"`
+	Snap         bool     `json:"equals_copy_made_when_produced"`
+	ChangedSince []string `json:"changed_since_produced,omitempty"`
+}
+
+func (r robs) coq() string {
+	return fmt.Sprintf("(Build_robs %d%%nat %s %s)", r.Idx, r.Obs.coq(), hx.Bool(r.Snap))
+}
+
+// birth: what a pool value looked like when it was produced
+type birth struct {
+	Unl  bool     `json:"unlimited"`
+	Iter []triple `json:"iter"`
+	Str  bstr     `json:"string"`
+	copy ociauth.Scope
 }
 
 type observed struct {
 	A, B, U        sobs
 	AB, BA, Eq, Qe bool
 	UA             bool
+	Born           []birth  `json:",omitempty"` // pool values 3.. when produced
+	Again          []robs   `json:",omitempty"`
 	Panics         []string `json:",omitempty"`
+}
+
+func bornAs(o sobs) birth {
+	b := birth{Unl: o.Unl, Iter: o.Iter, Str: o.Str}
+	b.makeCopy()
+	return b
+}
+
+// born records what a value just produced looks like and makes the independent copy
+func born(v ociauth.Scope) birth {
+	var b birth
+	b.Unl = v.IsUnlimited()
+	v.Iter()(func(r ociauth.ResourceScope) bool { b.Iter = append(b.Iter, fromRS(r)); return true })
+	b.Str = bstr(v.String())
+	b.makeCopy()
+	return b
+}
+
+func (b *birth) makeCopy() {
+	if b.Unl {
+		b.copy = ociauth.UnlimitedScope()
+		return
+	}
+	b.copy = newScope(b.Iter)
+}
+
+func (b birth) diff(o sobs) []string {
+	var d []string
+	if b.Unl != o.Unl {
+		d = append(d, "IsUnlimited")
+	}
+	same := len(b.Iter) == len(o.Iter)
+	for i := 0; same && i < len(b.Iter); i++ {
+		same = b.Iter[i] == o.Iter[i]
+	}
+	if !same {
+		d = append(d, "Iter")
+	}
+	if b.Str != o.Str {
+		d = append(d, "String")
+	}
+	return d
+}
+
+func cmpTriple(x, y triple) int {
+	if c := strings.Compare(string(x.T), string(y.T)); c != 0 {
+		return c
+	}
+	if c := strings.Compare(string(x.R), string(y.R)); c != 0 {
+		return c
+	}
+	return strings.Compare(string(x.A), string(y.A))
+}
+
+func isCatalog(t triple) bool { return t == tr("registry", "catalog", "*") }
+func isKnownRepo(t triple) bool {
+	return t.T == "repository" && t.R != "" && (t.A == "pull" || t.A == "push")
+}
+
+// number of entries of the compact representation (distinct named repositories + catalog)
+func repoCount(l []triple) int {
+	seen := map[bstr]bool{}
+	for _, t := range l {
+		if isCatalog(t) {
+			seen[""] = true
+		} else if isKnownRepo(t) {
+			seen[t.R] = true
+		}
+	}
+	return len(seen)
 }
 
 // ---------- walk schedules ----------
@@ -691,6 +933,309 @@ func related(rnd *rand.Rand, l []triple) ([]triple, string) {
 	return randList(rnd, rnd.Intn(6), false), "independent"
 }
 
+// ---------- further operations on the pool ----------
+
+// names that sort after / before every resource name in l (byte order, as strings.Compare)
+func nameAfter(l []triple, k int) string {
+	m := ""
+	for _, t := range l {
+		if string(t.R) > m {
+			m = string(t.R)
+		}
+	}
+	return m + fmt.Sprintf("~%d", k)
+}
+
+func nameBefore(l []triple, k int) string {
+	m := ""
+	for _, t := range l {
+		if t.R != "" && (m == "" || string(t.R) < m) {
+			m = string(t.R)
+		}
+	}
+	if m == "" || m[0] <= '!' {
+		return fmt.Sprintf("!%d", k)
+	}
+	// a proper prefix sorts first; when there is none, a name starting with a smaller byte
+	if len(m) > 1 && k == 0 {
+		return m[:len(m)-1]
+	}
+	return fmt.Sprintf("%c%d", m[0]-1, k)
+}
+
+func knownActs(rnd *rand.Rand, repo string) []triple {
+	switch rnd.Intn(3) {
+	case 0:
+		return []triple{tr("repository", repo, "pull")}
+	case 1:
+		return []triple{tr("repository", repo, "push")}
+	}
+	return []triple{tr("repository", repo, "pull"), tr("repository", repo, "push")}
+}
+
+// a fresh operand chosen with an eye on what the pool value with elements l holds
+func operandFor(rnd *rand.Rand, l []triple) ([]triple, string) {
+	return operandOfKind(rnd, l, rnd.Intn(operandKinds))
+}
+
+const operandKinds = 14
+
+func operandOfKind(rnd *rand.Rand, l []triple, pick int) ([]triple, string) {
+	var out []triple
+	// two operands made for the same value get different names more often than not
+	salt := 10 * rnd.Intn(4)
+	nameAfter := func(l []triple, k int) string { return nameAfter(l, k+salt) }
+	nameBefore := func(l []triple, k int) string {
+		if k == 0 && salt < 20 {
+			return nameBefore(l, 0)
+		}
+		return nameBefore(l, k+salt)
+	}
+	// a resource type that sorts after / before every type in l
+	typeAfter := func(k int) string {
+		m := "other"
+		for _, t := range l {
+			if string(t.T) > m {
+				m = string(t.T)
+			}
+		}
+		return fmt.Sprintf("%s~%d", m, k+salt)
+	}
+	typeBefore := func(k int) string { return fmt.Sprintf("!%d", k+salt) }
+	othersAfter := func() {
+		for k := 1 + rnd.Intn(3); k > 0; k-- {
+			out = append(out, tr(typeAfter(k), rRes[rnd.Intn(len(rRes))], rActs[rnd.Intn(len(rActs))]))
+		}
+	}
+	othersBefore := func() {
+		for k := 1 + rnd.Intn(3); k > 0; k-- {
+			out = append(out, tr(typeBefore(k), rRes[rnd.Intn(len(rRes))], rActs[rnd.Intn(len(rActs))]))
+		}
+	}
+	switch pick {
+	case 0, 1, 2: // named repositories that all sort after the ones of l (2: and other scopes after its other scopes)
+		for k := 1 + rnd.Intn(3); k > 0; k-- {
+			out = append(out, knownActs(rnd, nameAfter(l, k))...)
+		}
+		if pick == 2 || rnd.Intn(3) == 0 {
+			othersAfter()
+		}
+		return out, "after"
+	case 3, 4: // ... all before
+		for k := rnd.Intn(3); k >= 0; k-- {
+			out = append(out, knownActs(rnd, nameBefore(l, k))...)
+		}
+		if pick == 4 {
+			if rnd.Intn(2) == 0 {
+				out = append(out, tr("registry", "catalog", "*"))
+			} else {
+				othersBefore()
+			}
+		}
+		return out, "before"
+	case 5: // other scopes only, all after those of l
+		othersAfter()
+		return out, "others-after"
+	case 12: // ... all before
+		othersBefore()
+		return out, "others-before"
+	case 13: // ... on both sides and in between
+		othersAfter()
+		othersBefore()
+		out = append(out, tr("other", nameAfter(l, 0), ""), tr("repository", "", "pull"))
+		return messy(rnd, out), "others-around"
+	case 6: // the other action of repositories l has, and one new one
+		for _, t := range l {
+			if isKnownRepo(t) && rnd.Intn(2) == 0 {
+				// pull / push, or an action without a compact form (before, between, after them)
+				out = append(out, tr("repository", string(t.R), rActs[rnd.Intn(len(rActs))]))
+			}
+		}
+		out = append(out, knownActs(rnd, nameAfter(l, 9))...)
+		return out, "actions"
+	case 7: // part of l: the union adds nothing
+		for _, t := range l {
+			if rnd.Intn(2) == 0 {
+				out = append(out, t)
+			}
+		}
+		return messy(rnd, out), "subset"
+	case 8: // part of l and something after it
+		for _, t := range l {
+			if rnd.Intn(3) == 0 {
+				out = append(out, t)
+			}
+		}
+		out = append(out, knownActs(rnd, nameAfter(l, 1))...)
+		return messy(rnd, out), "overlap-after"
+	case 9: // in between
+		if len(l) > 0 {
+			t := l[rnd.Intn(len(l))]
+			out = append(out, knownActs(rnd, string(t.R)+"-")...)
+		}
+		out = append(out, randTriple(rnd, false))
+		return out, "between"
+	case 10:
+		return []triple{tr("registry", "catalog", "*")}, "catalog"
+	}
+	return randList(rnd, 1+rnd.Intn(4), false), "independent"
+}
+
+// genOps: n further operations on a pool whose first three values hold (about) the elements
+// elems[0..2]. Biased towards what makes shared backing arrays matter: the same receiver (or
+// the same argument) used in several unions, operands that sort entirely after / before the
+// other side, unions on the result of an earlier union, unions that add nothing (the result
+// IS the receiver) followed by a union on that result.
+func genOps(rnd *rand.Rand, elems [][]triple, n int) []pop {
+	var ops []pop
+	pool := append([][]triple{}, elems...)
+	push := func(o pop, l []triple) int {
+		ops = append(ops, o)
+		pool = append(pool, l)
+		return len(pool) - 1
+	}
+	fresh := func(l []triple) int {
+		if rnd.Intn(2) == 0 {
+			text := renderText(rnd, l, rnd.Intn(4) == 0)
+			return push(pop{K: "parse", Text: bstr(text)}, eParse(text).triples())
+		}
+		return push(pop{K: "new", L: append([]triple{}, l...)}, l)
+	}
+	union := func(i, j int) int {
+		return push(pop{K: "union", I: i, J: j}, append(append([]triple{}, pool[i]...), pool[j]...))
+	}
+	anyIdx := func() int {
+		switch rnd.Intn(4) {
+		case 0:
+			return 0
+		case 1:
+			return 2
+		}
+		return rnd.Intn(len(pool))
+	}
+	last := -1 // the pool value the last union had as receiver (or as argument, when swapped)
+	swapped := false
+	kind := rnd.Intn(operandKinds) // how the last fresh operand related to it
+	if n >= 4 && rnd.Intn(3) != 0 {
+		// the plainest way two results can come to share an array: one value is the receiver (or
+		// the argument) of two unions in a row whose other operand lies entirely on one side of it
+		sides := []int{0, 1, 2, 2, 2, 3, 4, 4, 5, 12}
+		kind = sides[rnd.Intn(len(sides))]
+		last, swapped = anyIdx(), rnd.Intn(3) == 0
+		if rnd.Intn(3) == 0 {
+			last = 0
+		}
+		for k := 0; k < 2; k++ {
+			l, _ := operandOfKind(rnd, pool[last], kind)
+			f := fresh(l)
+			if swapped {
+				union(f, last)
+			} else {
+				union(last, f)
+			}
+		}
+	}
+	for len(ops) < n {
+		switch k := rnd.Intn(20); {
+		case k < 11: // pool value with a fresh operand made for it; mostly the same pool value as last time
+			i := last
+			if i < 0 || rnd.Intn(3) == 0 {
+				i = anyIdx()
+				swapped = rnd.Intn(3) == 0
+			}
+			if rnd.Intn(2) == 0 {
+				kind = rnd.Intn(operandKinds)
+			}
+			l, _ := operandOfKind(rnd, pool[i], kind)
+			f := fresh(l)
+			if swapped {
+				union(f, i) // the pool value is the argument
+			} else {
+				union(i, f)
+			}
+			last = i
+		case k < 14: // two values of the pool
+			i, j := anyIdx(), anyIdx()
+			union(i, j)
+			last = i
+			swapped = false
+		case k < 16: // on the result of the last operation
+			j := anyIdx()
+			union(len(pool)-1, j)
+			last = len(pool) - 2
+			swapped = false
+		case k < 18:
+			i := anyIdx()
+			push(pop{K: "canon", I: i}, pool[i])
+		case k < 19:
+			i := anyIdx()
+			fresh(pool[i]) // same set, new value
+		default:
+			push(pop{K: "unl"}, nil)
+		}
+	}
+	// now and then look at a value again in the middle, not only at the end
+	for n := range ops {
+		if rnd.Intn(6) == 0 {
+			ops[n].Look = []int{rnd.Intn(3 + n + 1)}
+		}
+	}
+	return ops
+}
+
+// what the further observations probe Holds with: every element anywhere in the pool first
+func poolProbes(rnd *rand.Rand, in input, max int) []triple {
+	all := append(in.A.triples(), in.B.triples()...)
+	for _, o := range in.Ops {
+		switch o.K {
+		case "new":
+			all = append(all, o.L...)
+		case "parse":
+			all = append(all, eParse(string(o.Text)).triples()...)
+		}
+	}
+	seen := map[triple]bool{}
+	for _, t := range all {
+		seen[t] = true
+	}
+	// every element that occurs anywhere in the case, and a dozen near misses
+	return nearMisses(rnd, all, min(max, len(seen)+12))
+}
+
+// withOps adds n further operations and the probes for them to a generated input
+func withOps(rnd *rand.Rand, in input, n int) input {
+	ta, tb := in.A.triples(), in.B.triples()
+	in.Ops = genOps(rnd, [][]triple{ta, tb, append(append([]triple{}, ta...), tb...)}, n)
+	in.PProbes = poolProbes(rnd, in, 40)
+	return in
+}
+
+// a scope with n named repositories (so that the slices NewScope grows by append end up
+// with every ratio of length to capacity), m other scopes, sometimes the catalog scope
+func roomyList(rnd *rand.Rand, n, m int) []triple {
+	var l []triple
+	names := []string{"foo", "foo/bar", "team/alpha", "b", "team/beta", "lib/x", "a", "team/gamma", "foo/baz", "m", "q/r", "k"}
+	rnd.Shuffle(len(names), func(i, j int) { names[i], names[j] = names[j], names[i] })
+	for i := 0; i < n; i++ {
+		l = append(l, knownActs(rnd, names[i%len(names)]+strings.Repeat("x", i/len(names)))...)
+	}
+	for i := 0; i < m; i++ {
+		switch rnd.Intn(3) {
+		case 0:
+			// mostly a repository the scope also holds pull / push on
+			l = append(l, tr("repository", names[rnd.Intn(max(1, min(n, len(names))))], []string{"delete", "*", "", "pulll", "pum", "pushh"}[rnd.Intn(6)]))
+		case 1:
+			l = append(l, tr("other", names[rnd.Intn(len(names))], rActs[rnd.Intn(len(rActs))]))
+		default:
+			l = append(l, randTriple(rnd, true))
+		}
+	}
+	if rnd.Intn(5) == 0 {
+		l = append(l, tr("registry", "catalog", "*"))
+	}
+	return messy(rnd, l)
+}
+
 func nearMisses(rnd *rand.Rand, l []triple, max int) []triple {
 	var out []triple
 	seen := map[triple]bool{}
@@ -743,8 +1288,9 @@ func main() {
 	intern(rTypes...)
 	intern(rRes...)
 	intern(rActs...)
-	out.Preamble = dictDefs.String() + "Definition U80 : list rscope := " + cTriples(u80) + ".\n"
+	out.Preamble = dictDefs.String() + "Definition U80 : list rscope := " + cTriples(u80) + ".\n" + schedDefs()
 	rnd := cfg.Rand()
+	out.ShardMax = 160
 
 	add := func(in input, origin string) {
 		if in.Sched == nil {
@@ -768,15 +1314,84 @@ func main() {
 		guard("Equal", func() { ob.Eq = a.Equal(b); ob.Qe = b.Equal(a) })
 		guard("Union.Equal", func() { ob.UA = u.Equal(a) })
 		ob.Panics = append(append(append(ob.Panics, ob.A.Panics...), ob.B.Panics...), ob.U.Panics...)
+		// ---- the pool: go on working with the very same values, then look at all of them again
+		pool := []ociauth.Scope{a, b, u}
+		births := []birth{bornAs(ob.A), bornAs(ob.B), bornAs(ob.U)}
+		look := func(idx, after int) {
+			if idx < 0 || idx >= len(pool) {
+				panic(fmt.Sprintf("op looks at pool value %d of %d", idx, len(pool)))
+			}
+			r := robs{Idx: idx, After: after}
+			r.Obs = observe(pool[idx], in.PProbes, in.Stop, []wspec{})
+			guard(fmt.Sprintf("pool %d vs copy", idx), func() {
+				c := births[idx].copy
+				r.Snap = pool[idx].Equal(c) && c.Equal(pool[idx]) && pool[idx].Contains(c) && c.Contains(pool[idx])
+			})
+			r.ChangedSince = births[idx].diff(r.Obs)
+			ob.Panics = append(ob.Panics, r.Obs.Panics...)
+			ob.Again = append(ob.Again, r)
+		}
+		for n, op := range in.Ops {
+			var v ociauth.Scope
+			at := func(i int) ociauth.Scope {
+				if i < 0 || i >= len(pool) {
+					panic(fmt.Sprintf("op %d uses pool value %d of %d", n, i, len(pool)))
+				}
+				return pool[i]
+			}
+			switch op.K { // operands that do not exist are a bug of the generator, not of the library
+			case "union":
+				at(op.I)
+				at(op.J)
+			case "canon":
+				at(op.I)
+			}
+			guard(fmt.Sprintf("op %d %s", n, op.K), func() {
+				switch op.K {
+				case "new":
+					v = newScope(op.L)
+				case "parse":
+					v = ociauth.ParseScope(string(op.Text))
+				case "unl":
+					v = ociauth.UnlimitedScope()
+				case "union":
+					v = pool[op.I].Union(pool[op.J])
+				case "canon":
+					v = pool[op.I].Canonical()
+				default:
+					panic("bad op kind " + op.K)
+				}
+			})
+			pool = append(pool, v)
+			var bo birth
+			guard(fmt.Sprintf("op %d result", n), func() { bo = born(v) })
+			births = append(births, bo)
+			ob.Born = append(ob.Born, bo)
+			for _, idx := range op.Look {
+				look(idx, n+1)
+			}
+		}
+		if len(in.Ops) > 0 {
+			for idx := range pool {
+				look(idx, len(in.Ops))
+			}
+		}
+		cx = &termTable{names: map[string]string{}}
+		defer func() { cx = nil }()
 		pr := "U80"
 		if len(in.Probes) > 0 {
 			pr = "(U80 ++ " + cTriples(in.Probes) + ")"
 		}
-		coq := fmt.Sprintf("Build_case %s %s %s %d%%nat %s %s %s %s %s %s %s %s %s %s",
+		again := make([]string, len(ob.Again))
+		for i, r := range ob.Again {
+			again[i] = r.coq()
+		}
+		coq := fmt.Sprintf("Build_case %s %s %s %d%%nat %s %s %s %s %s %s %s %s %s %s %s %s %s",
 			in.A.coq(), in.B.coq(), pr, in.Stop, cSched(in.Sched), ob.A.coq(), ob.B.coq(), ob.U.coq(),
-			hx.Bool(ob.AB), hx.Bool(ob.BA), hx.Bool(ob.Eq), hx.Bool(ob.Qe), hx.Bool(ob.UA), hx.Bool(len(ob.Panics) > 0))
+			hx.Bool(ob.AB), hx.Bool(ob.BA), hx.Bool(ob.Eq), hx.Bool(ob.Qe), hx.Bool(ob.UA), hx.Bool(len(ob.Panics) > 0),
+			cOps(in.Ops), cTriples(in.PProbes), hx.List(again))
 		class := origin + "/" + in.A.K + "," + in.B.K
-		if !out.Add(hx.Case{Coq: "(" + coq + ")", Desc: map[string]any{"input": in, "observed": ob, "origin": origin},
+		if !out.Add(hx.Case{Coq: "(" + cx.defs.String() + coq + ")", Desc: map[string]any{"input": in, "observed": ob, "origin": origin},
 			Tags: map[string]any{"class": class, "origin": origin}}) {
 			return
 		}
@@ -845,6 +1460,48 @@ func main() {
 			feat("walk_fresh_between", fresh)
 		}
 		feat("panic", len(ob.Panics) > 0)
+		// the pool: which situations the further operations put the values in
+		out.Count(fmt.Sprintf("ops:%d", len(in.Ops)))
+		if len(in.Ops) > 0 {
+			recv, arg := map[int]int{}, map[int]int{}
+			var onResult, noop bool
+			for n, op := range in.Ops {
+				out.Count("op:" + op.K)
+				if op.K != "union" {
+					continue
+				}
+				recv[op.I]++
+				arg[op.J]++
+				derived := func(i int) bool {
+					return i == 2 || i > 2 && (in.Ops[i-3].K == "union" || in.Ops[i-3].K == "canon")
+				}
+				onResult = onResult || derived(op.I) || derived(op.J)
+				bi, bj, br := births[op.I], births[op.J], births[3+n]
+				noop = noop || (!bi.Unl && len(br.Iter) == len(bi.Iter))
+				if bi.Unl || bj.Unl || len(bj.Iter) == 0 || len(bi.Iter) == 0 {
+					continue
+				}
+				switch {
+				case cmpTriple(bi.Iter[len(bi.Iter)-1], bj.Iter[0]) < 0:
+					out.Count("feature:op_union_argument_all_after_receiver")
+				case cmpTriple(bj.Iter[len(bj.Iter)-1], bi.Iter[0]) < 0:
+					out.Count("feature:op_union_argument_all_before_receiver")
+				}
+			}
+			many := func(m map[int]int) bool {
+				for _, n := range m {
+					if n > 1 {
+						return true
+					}
+				}
+				return false
+			}
+			feat("pool_receiver_used_again", many(recv) || recv[0] > 0)
+			feat("pool_argument_used_again", many(arg) || arg[1] > 0)
+			feat("pool_union_on_earlier_result", onResult)
+			feat("pool_union_adds_nothing", noop)
+			out.Count(fmt.Sprintf("receiver_repositories:%02d", repoCount(births[0].Iter)))
+		}
 	}
 
 	type corpusFile struct {
@@ -927,6 +1584,9 @@ func main() {
 		}
 		in.Probes = nearMisses(rnd, append(append([]triple{}, l...), m...), 40)
 		in.Sched = genSched(rnd)
+		if i%4 == 0 {
+			in = withOps(rnd, in, 2+rnd.Intn(3))
+		}
 		add(in, "random-"+rel)
 	}
 	// 5. scope strings: duplicates, permutations, grouping, odd white space, malformed fields
@@ -963,6 +1623,9 @@ func main() {
 		in := input{A: eParse(text), B: b, Stop: rnd.Intn(5)}
 		in.Probes = nearMisses(rnd, append(in.A.triples(), in.B.triples()...), 40)
 		in.Sched = genSched(rnd)
+		if i%4 == 0 {
+			in = withOps(rnd, in, 2+rnd.Intn(3))
+		}
 		add(in, origin)
 	}
 	for _, f := range oddFields {
@@ -1005,7 +1668,43 @@ func main() {
 		in := input{A: a, B: b, Stop: rnd.Intn(4)}
 		in.Probes = nearMisses(rnd, append(a.triples(), b.triples()...), 30)
 		in.Sched = genSched(rnd)
+		if i%4 == 0 {
+			in = withOps(rnd, in, 2+rnd.Intn(3))
+		}
 		add(in, "expr")
+	}
+	// 7. values that go on being used: receivers with 0..12 named repositories and 0..8 other
+	// scopes (every ratio of length to capacity of the slices inside), built by NewScope or
+	// ParseScope, a partner made for them (mostly sorting entirely after / before them), and
+	// 4..6 further operations on the pool of values
+	nPool := 300
+	if thorough {
+		nPool = 5000
+	}
+	for i := 0; i < nPool; i++ {
+		var l []triple
+		switch i % 4 {
+		case 0:
+			l = roomyList(rnd, rnd.Intn(13), 0) // named repositories only
+		case 1:
+			l = roomyList(rnd, rnd.Intn(5), 1+rnd.Intn(8)) // mostly other scopes
+		default:
+			l = roomyList(rnd, rnd.Intn(13), rnd.Intn(9))
+		}
+		m, rel := operandFor(rnd, l)
+		mk := func(l []triple) *expr {
+			if rnd.Intn(2) == 0 {
+				return eParse(renderText(rnd, l, rnd.Intn(4) == 0))
+			}
+			return eNew(l)
+		}
+		in := input{A: mk(l), B: mk(m), Stop: rnd.Intn(5)}
+		if rnd.Intn(8) == 0 {
+			in.A, in.B = in.B, in.A
+		}
+		in.Probes = nearMisses(rnd, append(in.A.triples(), in.B.triples()...), 16)
+		in.Sched = genSched(rnd)
+		add(withOps(rnd, in, 4+rnd.Intn(3)), "pool-"+rel)
 	}
 
 	if err := out.Flush(); err != nil {
